@@ -255,6 +255,20 @@ def main(argv):
         ctx.count("composed-hash-model-calls", ncalls)
         for b in bad[:5]:
             ctx.disagreement("composed Lean model HashClient∘Client differs from the real HashClient", b, theorem="C01_hash_own_bytes_only")
+    # broadcasts of HashClient (Pymc/Model/HashBroadcast.lean): random histories that mix key-addressed calls, clock advances, servers going
+    # down / coming back and flush_all / quit / close (disconnect_all) on the real HashClient, compared call by call (result or class of the
+    # escaping exception — the ValueError of remove_node is its own class —, clients handed to _safely_run_func in order, client objects the
+    # function was called on, bookkeeping state, socket / unread bytes of every registered client)
+    if ctx.lean.build_ok:
+        import hashbroadcast_diff
+        ncalls, bad = hashbroadcast_diff.differential(3000 if ctx.thorough else 500, rng, ctx.driver.batch)
+        ctx.count("composed-hash-broadcast-model-calls", ncalls)
+        for k, v in hashbroadcast_diff.STATS.items():
+            if k.startswith("broadcast"):
+                ctx.count("hash-" + k, v)
+        for b in bad[:5]:
+            ctx.disagreement("composed Lean model HashClient∘Client with broadcasts (flush_all / quit / close) differs from the real HashClient", b,
+                             theorem="C01_hash_broadcast_own_bytes_only")
     # composed model HashClient ∘ PooledClient ∘ Client (Pymc/Model/HashPooledCall.lean): random histories of single-key calls with per-call
     # scripts on the real HashClient(use_pooling=True), compared call by call (result, server, PooledClient invoked, inner client, socket used,
     # bookkeeping state, and per registered pool: idle clients with socket / unread bytes, sockets closed in order, checked-out count)
